@@ -58,7 +58,7 @@ def plan(tier, seed):
     return t
 
 
-def check_case(case, p=None, retain=None):
+def check_case(case, p=None, retain=None, stab_cache=None):
     """Run one case against the real API.  Returns a list of violations (key, what)."""
     from htstabilizer.stabilizer_circuits import get_preparation_circuit
     n = case["n"]
@@ -76,7 +76,13 @@ def check_case(case, p=None, retain=None):
             call(own_circuit.h, n // 2)
             call(own_circuit.cx, 0, n - 1)
     else:
-        ok, st = call(ws.make_stabilizer, case, case["fmt"], random.Random(n))
+        ckey = tuple(case["gens"])
+        if stab_cache is not None and stab_cache.get("key") == ckey and stab_cache.get("fmt") in ("str+", "str", "mat3", "mat") and case["fmt"] != "circuit":
+            ok, st = True, stab_cache["obj"]        # the caller holds on to its Stabilizer object across requests
+        else:
+            ok, st = call(ws.make_stabilizer, case, case["fmt"], random.Random(n))
+        if ok and stab_cache is not None:
+            stab_cache["key"], stab_cache["obj"], stab_cache["fmt"] = ckey, st, st[1]
     if not ok:
         return [("input-rejected n=%d fmt=%s" % (n, case["fmt"]),
                  "constructing the Stabilizer for a valid input raised %s: %s" % (exc_name(st), st))], None
@@ -141,6 +147,7 @@ def sign_variants(case, k=2):
 def work(task):
     p = Partial()
     retain = Retained(digest_circuit, 600)
+    stab_cache = {}
     cases = wp.iter_cases(task)
 
     def with_variants():
@@ -152,7 +159,7 @@ def work(task):
                 yield c                             # and the original request once more
     for case in with_variants():
         p.evals += 1
-        vs, gates = check_case(case, retain=retain)
+        vs, gates = check_case(case, retain=retain, stab_cache=stab_cache)
         p.counters["conf %d-%s" % (case["n"], case["conn"])] += 1
         p.counters["fmt " + case["fmt"]] += 1
         p.counters["stratum " + case["stratum"].replace("-signvariant", " (sign variants of the same operators)")] += 1
